@@ -595,6 +595,16 @@ func c04Classify(p *core.Program, r *core.Report, f *core.Func, os OrderSource) 
 		return
 	}
 	sh := rangeBodyShape(info, rs)
+	if sh.KeyedOnly {
+		// a keyed store is order-insensitive only if computing the stored value is: the calls it evaluates must not
+		// reach hidden shared state (rendering registers imports in arrival order)
+		for _, c := range sh.Calls {
+			if free, why := orderFreeCall(p, info, c, 0, map[*types.Func]bool{}); !free {
+				r.Bad(rule, f, construct, os.Pos, "the loop only performs keyed stores, but what it stores is computed per element in map order by a call whose effects can be ordered: "+why)
+				return
+			}
+		}
+	}
 	switch {
 	case sh.KeyedOnly && len(sh.Collected) > 0:
 		for _, x := range sh.Collected {
